@@ -3,6 +3,8 @@ package props
 import (
 	"encoding/json"
 	"fmt"
+	"os"
+	"path/filepath"
 	"sort"
 	"strings"
 	"testing"
@@ -18,6 +20,32 @@ type c11Case struct {
 	Pkgs    []string          `json:"pkgs"`
 	Sources map[string]string `json:"sources"`
 	Note    string            `json:"note"`
+	// SecondModule: the main module requires (and replaces to a sub-directory) a second
+	// module vf.test/lib2 with @packageonly items, a violation inside it and one in the
+	// main module; the runs also list, prepend and isolate the second module's packages
+	SecondModule bool `json:"second_module,omitempty"`
+}
+
+// c11WriteSecondModule adds vf.test/lib2 below dir and a main-module package using it.
+func c11WriteSecondModule(dir string) error {
+	files := map[string]string{
+		"go.mod":              "module " + proggen.Module + "\n\ngo 1.23\n\nrequire vf.test/lib2 v0.0.0\n\nreplace vf.test/lib2 => ./zzlib2\n",
+		"zzlib2/go.mod":       "module vf.test/lib2\n\ngo 1.23\n",
+		"zzlib2/kit/kit.go":   "package kit\n\n// @packageonly\ntype Secret struct{ N int }\n\n// @packageonly vf.test/lib2/kit, other\nfunc Open() *Secret { return &Secret{} }\n\n// @packageonly\nfunc (s *Secret) Peek() int { return s.N }\n",
+		"zzlib2/report/r.go":  "package report\n\nimport \"vf.test/lib2/kit\"\n\nvar S kit.Secret\n\nfunc R() int { return kit.Open().Peek() }\n",
+		"zzlib2/report2/r.go": "package report2\n\nimport \"vf.test/lib2/kit\"\n\nfunc R() *kit.Secret { return kit.Open() }\n",
+		"zzuse/u.go":          "package zzuse\n\nimport \"vf.test/lib2/kit\"\n\nfunc U() int { return kit.Open().Peek() }\n\nvar V *kit.Secret\n",
+	}
+	for name, src := range files {
+		fn := filepath.Join(dir, name)
+		if err := os.MkdirAll(filepath.Dir(fn), 0o755); err != nil {
+			return err
+		}
+		if err := os.WriteFile(fn, []byte(src), 0o644); err != nil {
+			return err
+		}
+	}
+	return nil
 }
 
 type c11Sched struct {
@@ -26,6 +54,7 @@ type c11Sched struct {
 	env    []string
 	pats   []string
 	subset bool
+	learn  bool // packages the baseline did not list are recorded, not flagged
 }
 
 // c11Run compares the per-package JSON of the binary across schedules and runs
@@ -43,6 +72,11 @@ func c11Run(c c11Case, rt *rapid.T, race bool) (string, int) {
 	if err := engine.WriteToDisk(prog, dir); err != nil {
 		return "", 0
 	}
+	if c.SecondModule {
+		if err := c11WriteSecondModule(dir); err != nil {
+			return "", 0
+		}
+	}
 	base := engine.RunBinary(dir, nil, nil, "./...")
 	if len(base.Panics) > 0 || base.Exit != 0 || len(base.Errors) > 0 {
 		return fmt.Sprintf("baseline run failed: exit %d %v %v", base.Exit, base.Panics, base.Errors), 0
@@ -54,6 +88,9 @@ func c11Run(c c11Case, rt *rapid.T, race bool) (string, int) {
 	var pats []string
 	for _, d := range c.Pkgs {
 		pats = append(pats, "./"+d)
+	}
+	if c.SecondModule {
+		pats = append(pats, "./zzuse")
 	}
 	perm := func(label string) []string {
 		if rt == nil {
@@ -75,6 +112,16 @@ func c11Run(c c11Case, rt *rapid.T, race bool) (string, int) {
 	if len(pats) > 1 {
 		p2 := perm("subset")
 		scheds = append(scheds, c11Sched{name: "subset of roots", pats: p2[:(len(p2)+1)/2], subset: true})
+	}
+	if c.SecondModule {
+		const lib2 = "vf.test/lib2/..."
+		scheds = append(scheds,
+			c11Sched{name: "second module's packages listed too", pats: []string{"./...", lib2}, learn: true},
+			c11Sched{name: "second module first", pats: []string{lib2, "./..."}},
+			c11Sched{name: "second module first, sequential", flags: []string{"-debug=p"}, pats: []string{lib2, "./..."}},
+			c11Sched{name: "second module alone", pats: []string{lib2}, subset: true},
+			c11Sched{name: "second module alone, sequential", flags: []string{"-debug=p"}, pats: []string{lib2}, subset: true},
+		)
 	}
 	runs := 0
 	for _, s := range scheds {
@@ -103,6 +150,10 @@ func c11Run(c c11Case, rt *rapid.T, race bool) (string, int) {
 			}
 		}
 		for pkg := range got {
+			if _, ok := want[pkg]; !ok && s.learn {
+				want[pkg] = got[pkg]
+				continue
+			}
 			if _, ok := want[pkg]; !ok && strings.TrimSpace(got[pkg]) != "" {
 				return fmt.Sprintf("%s: extra package %s in output", s.name, pkg), runs
 			}
@@ -276,6 +327,10 @@ func TestC11(t *testing.T) {
 				ns["twsvc2/s.go"] = "package twsvc2\n\nimport \"vf.test/m/tw2/repo\"\n\n// @implements &repo.Repo\ntype S struct{}\n\nfunc (s *S) Get() int { return 0 }\n\nfunc Use() { _ = repo.Rec{} }\n"
 				c.Sources = ns
 				ev.Class(id, "with the same-named-packages fixture")
+			}
+			if rapid.IntRange(0, 9).Draw(rt, "secondModule") < 3 {
+				c.SecondModule = true
+				ev.Class(id, "with a second module (require + replace) whose packages are listed, prepended, isolated")
 			}
 			why, runs := c11Run(c, rt, race)
 			ev.ClassN(id, "binary runs compared", int64(runs))
